@@ -265,3 +265,41 @@ def typestate_rule(ctx, rep, rid="N1"):
                     rep.ok(rid, "%s %s: mark opened at %s closed exactly once" % (inst.label, fn, site(b, pt).rsplit("/", 1)[-1]))
     rep.count("marks followed", n)
     rep.floor(rid, 400, "marks")
+
+
+# -------------------------------------------------------------------------------------------------
+# MARKPOS: a mark used for a node creation lies inside the rule's own node (C05)
+# -------------------------------------------------------------------------------------------------
+def markpos_rule(ctx, rep, rid="MARKPOS"):
+    rep.rule(rid, "DOM: when a generated rule function wraps already parsed elements into a new node (`open_before(mark)`) and the function has opened "
+                  "a node of its own before that point, the mark was taken after that open: a mark taken before the rule's own `open` denotes a "
+                  "position in the parent, so the created node would be inserted in front of the rule's node, whose own mark then points at the "
+                  "created node (a marker/creation pair must wrap exactly the elements parsed between marker and creation, inside the rule)")
+    n = 0
+    for inst in ctx.instances(with_corpus=True):
+        for rule, b in inst.all_rule_bodies():
+            pr = P(b)
+            opens = [pt for pt, name, decl, args, t in calls(b) if name.endswith("Parser::open")]
+            if not opens:
+                continue
+            for pt, name, decl, args, t in calls(b):
+                if not name.endswith("Parser::open_before"):
+                    continue
+                mk = args[1]
+                if not (mk[0] == "call" and mk[1].endswith("Parser::mark")):
+                    continue   # marks of other origin (a closed node in a Pratt loop, a captured mark) are not positions taken by mark()
+                mpts = [p2 for p2, n2, d2, a2, t2 in calls(b) if n2.endswith("Parser::mark") and pr.call_expr(t2)[4] == mk[4]]
+                if not mpts:
+                    continue
+                mpt = mpts[0]
+                n += 1
+                bad = [o for o in opens if b.dominates(o[0], pt[0]) and o[0] != pt[0] and not b.dominates(o[0], mpt[0])]
+                fn = b.name.split("::parser::")[-1]
+                if bad:
+                    rep.violation(rid, "%s|%s|mark-before-open" % (inst.label, fn), "%s: in %s the mark handed to open_before at %s was taken before the function opened its own "
+                                  "node (%s): the created node is inserted in front of the rule's node instead of inside it" % (
+                                      inst.label, fn, site(b, pt).rsplit("/", 1)[-1], site(b, bad[0]).rsplit("/", 1)[-1]), site(b, mpt))
+                else:
+                    rep.ok(rid, "%s %s: mark for the creation at %s lies inside the rule's node" % (inst.label, fn, site(b, pt).rsplit("/", 1)[-1]))
+    rep.count("creations from a mark in functions with an own node", n)
+    rep.floor(rid, 8, "creations")
